@@ -50,6 +50,13 @@ def finding_matches(f, rej):
     return True
 
 
+class Died(Exception):
+    """the driver process died of a signal: reported as a violation (see Ctx.driver)"""
+    def __init__(self, sig, case, what):
+        Exception.__init__(self, what)
+        self.sig, self.case, self.what = sig, case, what
+
+
 class Ctx:
     def __init__(self, pid, tier, seed, level="model_checking"):
         self.pid, self.tier, self.seed, self.level = pid, tier, seed, level
@@ -152,6 +159,24 @@ class Ctx:
         with open(self.path("driver_%s.err" % name), "a") as f:
             f.write(p.stderr[-20000:])
         if p.returncode not in ok_codes:
+            # The driver guards every library call (signals, ASan reports, watchdog).  If the PROCESS dies of a signal all the same - 70 is the
+            # guard's own exit for a signal that arrives outside a guarded call, 128+n / -n a raw signal - the library corrupted memory the harness
+            # lives in (a write far outside its buffer): that is an observation about the code under test, reported as a violation with the
+            # sanitizer's first report, not as a broken check.  Time-outs (124) and ordinary failures stay broken checks.
+            died = p.returncode == 70 or p.returncode < 0 or p.returncode in (128 + 6, 128 + 11, 128 + 7, 128 + 4, 128 + 8)
+            if died:
+                m = re.search(r"ERROR: AddressSanitizer: ([^\n]*)", p.stderr)
+                first = m.group(1)[:200] if m else "no sanitizer report"
+                keep = []
+                for a in args:
+                    a = str(a)
+                    if a.startswith(self.out) and os.path.isfile(a) and os.path.getsize(a) < 64 * 1024 * 1024 and "log" not in os.path.basename(a):
+                        dst = os.path.join(VERIF, "out", "replay", "%s%s_died_%s" % (self.pid, self.tag, os.path.basename(a)))
+                        shutil.copy(a, dst)
+                        keep.append(dst)
+                raise Died(dict(clause="driver_process_died", driver=name), dict(driver=name, variant=variant, args=[str(a) for a in args], inputs=keep, exit=p.returncode),
+                           "the process running the real code (%s %s) died with status %d outside every guarded call; first sanitizer report: %s" % (
+                               name, args[0] if args else "", p.returncode, first))
             raise Broken("driver %s %s exited %d\n%s" % (name, " ".join(map(str, args)), p.returncode, p.stderr[-2000:]))
         return p
 
@@ -295,7 +320,23 @@ def main(run_fn, pid):
     ctx = Ctx(pid, tier, seed)
     ctx.replay = replay
     try:
-        run_fn(ctx)
+        try:
+            died_case = None
+            if replay:
+                rc = json.load(open(replay))
+                if rc.get("sig", {}).get("clause") == "driver_process_died":
+                    died_case = rc["case"]
+            if died_case:      # generic replay of a process death: the same driver on the kept copies of its inputs
+                ctx.rule, ctx.assumptions = "replay of a recorded death of the driver process", []
+                ctx.samples.append(dict(driver=died_case["driver"], args=died_case["args"][:2]))
+                by = {os.path.basename(k).split("_died_", 1)[1]: k for k in died_case["inputs"]}
+                args = [by.get(os.path.basename(a), a) if a.startswith(os.path.join(VERIF, "out")) else a for a in died_case["args"]]
+                args = [a if not (a.startswith(os.path.join(VERIF, "out")) and a not in by.values()) else ctx.path(os.path.basename(a)) for a in args]
+                ctx.driver(died_case["driver"], died_case["variant"], args)
+            else:
+                run_fn(ctx)
+        except Died as d:
+            ctx.reject(d.sig, d.case, d.what)
         return ctx.finish()
     except Broken as e:
         print("BROKEN-CHECK property=%s: %s" % (pid, e))
